@@ -280,6 +280,10 @@ def run(ctx):
     rcfg = fw.write_cfg(ctx.path("MC_RootRemoveAlg.cfg"), invariants=["RootOK", "RemoveOK"],
                         constants={"MaxN": ctx.pick(20000, 70000), "MaxRootN": ctx.pick(16, 18), "MaxX": ctx.pick(6000, 20000), "MaxF": ctx.pick(30, 40)})
     ctx.mc("mc-rootremove", SPEC, "RootRemoveAlg.tla", rcfg, workers=4, timeout=2400)
+    # the Karatsuba square root of the widest primitive (base/src/ring/root.rs, u128 from two u64 halves) at 12 / 16 (20) bits
+    for h in (6, 8) + (() if ctx.quick else (10,)):
+        qcfg = fw.write_cfg(ctx.path("MC_PrimSqrtAlg_%d.cfg" % h), invariants=["SqrtOK"], constants={"H": h})
+        ctx.mc("mc-primsqrt-h%d" % h, SPEC, "PrimSqrtAlg.tla", qcfg, workers=4, timeout=2400)
 
     # 2. spec -> impl: the partition enumerated by TLC
     step16 = ctx.pick(32, 1)
